@@ -1,6 +1,6 @@
 // C04 implementation driver (planner-level clauses): optimizing planners of /repo under several objectives, solved
 // repeatedly on the same query; every stored solution is re-costed independently.
-//   CRUN <planner> <space> <env> <query> <objective length|integral|clearance> <threshold factor|0> <seed> <seconds> <nsolves>
+//   CRUN <planner> <space> <env> <query> <objective length|integral|work|clearance> <threshold factor|0> <seed> <seconds> <nsolves>
 // output per solve:  SOLVE k status nsolutions
 //   SOL i approx diff optimized hasopt stored true length lower satisfied   (costs in 1e-9 units; lower = admissible lower bound of the true cost)
 //   PTS i n dim : reals of every path state (bit patterns)     SC i : stateCost of every path state
@@ -10,6 +10,7 @@
 #include "planners_all.h"
 #include <ompl/base/objectives/StateCostIntegralObjective.h>
 #include <ompl/base/objectives/MaximizeMinClearanceObjective.h>
+#include <ompl/base/objectives/MechanicalWorkOptimizationObjective.h>
 #include <cstring>
 
 class HeightCost : public ob::StateCostIntegralObjective
@@ -17,6 +18,14 @@ class HeightCost : public ob::StateCostIntegralObjective
 public:
     HeightCost(const ob::SpaceInformationPtr &si) : ob::StateCostIntegralObjective(si, false) {}
     ob::Cost stateCost(const ob::State *s) const override { std::vector<double> r; si_->getStateSpace()->copyToReals(r, s); return ob::Cost(1.0 + 10.0 * r[1]); }
+};
+// mechanical work over a sloped potential (state cost 1 + 4 y): climbing costs, descending is free — the one shipped objective whose
+// motion cost is not symmetric
+class SlopeWork : public ob::MechanicalWorkOptimizationObjective
+{
+public:
+    SlopeWork(const ob::SpaceInformationPtr &si) : ob::MechanicalWorkOptimizationObjective(si, 0.05) {}
+    ob::Cost stateCost(const ob::State *s) const override { std::vector<double> r; si_->getStateSpace()->copyToReals(r, s); return ob::Cost(1.0 + 4.0 * r[1]); }
 };
 // validity with a clearance (distance to the nearest obstacle boundary, positions only)
 class ClearanceChecker : public EnvChecker
@@ -61,9 +70,10 @@ int main(int argc, char **argv)
             ob::OptimizationObjectivePtr obj; int kind = 1;
             if (objn == "length") obj = std::make_shared<ob::PathLengthOptimizationObjective>(w.si);
             else if (objn == "integral") obj = std::make_shared<HeightCost>(w.si);
+            else if (objn == "work") obj = std::make_shared<SlopeWork>(w.si);
             else { obj = std::make_shared<LoggingClearance>(w.si); kind = 2; }
             double direct = w.space->distance(s0, g0);
-            if (thrf > 0) obj->setCostThreshold(ob::Cost(kind == 2 ? 0.02 * thrf : direct * thrf * (objn == "integral" ? 6.0 : 1.0)));
+            if (thrf > 0) obj->setCostThreshold(ob::Cost(kind == 2 ? 0.02 * thrf : direct * thrf * (objn == "integral" ? 6.0 : (objn == "work" ? 4.0 : 1.0))));
             pdef->setOptimizationObjective(obj);
             ob::PlannerPtr planner = make_planner(pl, w.si); planner->setProblemDefinition(pdef); planner->setup();
             for (int k = 0; k < nsolves; ++k)
@@ -76,7 +86,7 @@ int main(int argc, char **argv)
                 {
                     auto &s = sols[i]; auto *pg = dynamic_cast<og::PathGeometric *>(s.path_.get()); if (!pg) continue;
                     double truec = pg->cost(obj).value(), len = pg->length();
-                    double lower = (objn == "length" && pg->getStateCount() > 0) ? w.space->distance(pg->getState(0), pg->getState(pg->getStateCount() - 1)) : (objn == "integral" ? len * 1.0 : -1e9);
+                    double lower = (objn == "length" && pg->getStateCount() > 0) ? w.space->distance(pg->getState(0), pg->getState(pg->getStateCount() - 1)) : (objn == "integral" ? len * 1.0 : ((objn == "work" && pg->getStateCount() > 0) ? std::max(obj->stateCost(pg->getState(pg->getStateCount() - 1)).value() - obj->stateCost(pg->getState(0)).value(), 0.0) + 0.05 * w.space->distance(pg->getState(0), pg->getState(pg->getStateCount() - 1)) : -1e9));
                     bool hasopt = static_cast<bool>(s.opt_);
                     std::cout << "SOL " << i << " " << (s.approximate_ ? 1 : 0) << " " << e9(s.difference_) << " " << (s.optimized_ ? 1 : 0) << " " << (hasopt ? 1 : 0) << " " << e9(hasopt ? s.cost_.value() : 0.0)
                               << " " << e9(truec) << " " << e9(len) << " " << e9(lower) << " " << ((hasopt && obj->isSatisfied(s.cost_)) ? 1 : 0) << " " << s.plannerName_ << "\n";
